@@ -478,6 +478,9 @@ def run(tier, seed):
             if len(rest) > cap:
                 rest = rng.sample(rest, cap)
                 exhaustive = False
+            if scale != 1:
+                keep = rng.sample(keep, int(len(keep) * scale))
+                exhaustive = False
             hists = keep + rest
         fam_info[name] = {"histories_enumerated": total, "replayed": len(hists), "tlc_states": r.distinct,
                           "simulation": bool(sim), "bounds": {k: c[k] for k in ("D", "P", "Nested", "OpenModes", "WriteModes")},
@@ -504,6 +507,8 @@ def run(tier, seed):
         deep2 = [t for t in terms if term_depth(t) > 1]
         vterms = shallow + rng.sample(deep2, min(int(200 * scale), len(deep2)))
         exhaustive = False
+    elif scale != 1:
+        vterms = rng.sample(terms, int(len(terms) * scale))
     for t in vterms:
         job = {"id": jid, "hist": vhist, "plan": [t, {"k": rng.choice(V.CHEAP), "ch": []}], "seed": seed * 1000003 + jid, "obs_from": 0}
         meta[jid] = {"family": "values", "exp": None, "nd": ND, "np": NP, "term": t}
